@@ -56,6 +56,7 @@ func runShard(a hkit.Args, al alphabet) shardOut {
 	do := func(c Case) {
 		out.Cases++
 		for _, f := range check(c, st) {
+			f.Tier, f.Shard, f.Of = a.Tier, a.Shard, a.Of
 			out.FailCount[f.Sig]++
 			if old, ok := out.Fails[f.Sig]; !ok || smaller(f.Case, old.Case) {
 				out.Fails[f.Sig] = f
@@ -215,6 +216,16 @@ func replay(path string) {
 	for _, g := range show(f.Case) {
 		if g.Sig == f.Sig {
 			fmt.Printf("replay: %s reproduced\n", f.Sig)
+			fmt.Printf("VIOLATION property=%s replay=%s\n", propID, path)
+			os.Exit(1)
+		}
+	}
+	if f.Of > 1 {
+		// not reproducible in isolation: re-run the enumeration the failure was found in, in the same order
+		fmt.Printf("replay: %s not reproduced on a fresh process; re-running shard %d of %d (%s) for its history\n", f.Sig, f.Shard, f.Of, f.Tier)
+		out := runShard(hkit.Args{Tier: f.Tier, Shard: f.Shard, Of: f.Of}, alphabets(f.Tier))
+		if g, ok := out.Fails[f.Sig]; ok {
+			fmt.Printf("replay: %s reproduced with the history of its shard (the verdict depends on earlier evaluations: hidden state): text=%q parent=%q: %s\n", f.Sig, g.Case.Text, g.Case.Parent, g.Detail)
 			fmt.Printf("VIOLATION property=%s replay=%s\n", propID, path)
 			os.Exit(1)
 		}
